@@ -94,7 +94,7 @@ func newEthTree(baseTime uint64) *ethTree {
 		h := &ethtypes.Header{
 			UncleHash: make([]byte, 32), Coinbase: common.BytesToAddress([]byte(id)).Bytes(), Root: root, TxHash: make([]byte, 32), ReceiptHash: make([]byte, 32),
 			Bloom: make([]byte, 256), Difficulty: big.NewInt(1).Bytes(), Height: clienttypes.NewHeight(0, 100+t.Height[id]),
-			GasLimit: 30_000_000, GasUsed: gu, Time: baseTime + 10*t.Height[id], Extra: []byte(id), MixDigest: make([]byte, 32),
+			GasLimit: 30_000_000, GasUsed: gu, Time: baseTime + 10*t.Height[id] + ethBranchDelay(id), Extra: []byte(id), MixDigest: make([]byte, 32),
 			BaseFee: big.NewInt(7).Bytes(), ParentHash: make([]byte, 32),
 		}
 		if id != "g" {
@@ -123,6 +123,15 @@ func newEthTree(baseTime uint64) *ethTree {
 }
 
 const ethName = "cli-eth"
+
+// ethBranchDelay: in the expiry leg (VERIF_ETH_TP set) the headers of the competing branches b, c and d are dated 26 s
+// later than the a branch's, so that a re-pointed low height can be younger than a height above it
+func ethBranchDelay(id string) uint64 {
+	if os.Getenv("VERIF_ETH_TP") != "" && id != "g" && (id[0] == 'b' || id[0] == 'c' || id[0] == 'd' || id[0] == 'p') {
+		return 26
+	}
+	return 0
+}
 
 // refDifficulty: the Byzantium / EIP-100 difficulty formula written down independently of the code under test (block
 // numbers far below the bomb delay): parent + parent/2048 * max((2 if parent has uncles else 1) - dt/9, -99), at least 131072
@@ -334,7 +343,13 @@ func driveETHClient(t *testing.T, in, out string, seed int64) {
 		if v, err := strconv.ParseUint(os.Getenv("VERIF_ETH_CHAINID"), 10, 64); err == nil && v > 0 {
 			chainID = v // not Rinkeby: difficulty and proof-of-work are checked (no valid seal can be produced here)
 		}
-		cs := &ethtypes.ClientState{Header: *g, ChainId: chainID, ContractAddress: common.HexToAddress("0x1234").Bytes(), TrustingPeriod: 1_000_000_000, TimeDelay: 0, BlockDelay: 0}
+		tp := uint64(1_000_000_000)
+		expiry := false
+		if v, err := strconv.ParseUint(os.Getenv("VERIF_ETH_TP"), 10, 64); err == nil && v > 0 {
+			// expiry leg: the trusting period ends v seconds after the genesis header's date as seen from the first block
+			tp, expiry = 1000+v, true
+		}
+		cs := &ethtypes.ClientState{Header: *g, ChainId: chainID, ContractAddress: common.HexToAddress("0x1234").Bytes(), TrustingPeriod: tp, TimeDelay: 0, BlockDelay: 0}
 		cons := &ethtypes.ConsensusState{Timestamp: g.Time, Height: g.Height, Root: g.Root}
 		prop, err := clienttypes.NewCreateClientProposal("t", "d", ethName, cs, cons)
 		must(err)
@@ -374,6 +389,17 @@ func driveETHClient(t *testing.T, in, out string, seed int64) {
 			}
 			line["dg"] = M{"pre": pre, "post": c.Digest("xibc")}
 			line["st"] = tree.project(c)
+			if expiry {
+				// the clock at which the step ran (seconds since the genesis header's date), the trusting period, and the date of
+				// every header of the universe; then 3 s pass
+				line["clock"] = M{"now": int64(uint64(c.Header.Time.Unix()) - g.Time), "tp": int64(tp)}
+				dates := M{}
+				for id, h := range tree.Hdr {
+					dates[id] = int64(h.Time - g.Time)
+				}
+				line["dates"] = dates
+				c.CommitAdvance(3 * time.Second)
+			}
 			tw.Emit(line)
 		}
 		// determinism probe (C14): a child of the genesis header dated around the wall clock (the date is an input, the
